@@ -283,3 +283,24 @@ Proof.
   repeat (apply Forall_cons; [repeat split; intros old p; cbn [dispatcher_update op_update]; ring |]).
   apply Forall_nil.
 Qed.
+
+(** * simd_vector/simd_vector_{double,float}.h: the arithmetic operators of the sse / avx / avx512 floating vector
+    types (member compound forms with a number, a register or a vector; free functions vector op vector, vector op
+    number, number op vector; unary plus / minus).  Every one - as translated - issues exactly one arithmetic
+    intrinsic (besides the broadcast set1), of the operator's own kind (unary minus: neg, unary plus: none), of the
+    vector width of the type it is defined for, and with the suffix of the element type.  That the intrinsic itself
+    is lane-wise is Intel's specification (trusted; observed by the C08 lane correspondence). *)
+Definition simd_fp_operator_ok (e : nat * nat * bool * nat * nat * nat * bool) : bool :=
+  let '(ty, op, compound, w, iw, stem, suffix_ok) := e in
+  suffix_ok &&
+  ((stem =? op) && (iw =? w)
+   || negb compound && (op =? 2) && (stem =? 5) && (iw =? w)        (* unary minus *)
+   || negb compound && (op =? 1) && (stem =? 0) && (iw =? 0)).       (* unary plus *)
+Lemma gen_simd_fp_operators_ok :
+  forallb simd_fp_operator_ok gen_simd_fp_operators = true /\
+  (* per element type, operator and width: the three compound forms and the three binary free functions are all present *)
+  forallb (fun k : nat * nat * nat => let '(ty, op, w) := k in
+     (3 <=? List.length (filter (fun e : nat * nat * bool * nat * nat * nat * bool => let '(t, o, c, w', _, s, _) := e in (t =? ty) && (o =? op) && c && (w' =? w) && (s =? op)) gen_simd_fp_operators)) &&
+     (3 <=? List.length (filter (fun e : nat * nat * bool * nat * nat * nat * bool => let '(t, o, c, w', _, s, _) := e in (t =? ty) && (o =? op) && negb c && (w' =? w) && (s =? op)) gen_simd_fp_operators)))
+    (flat_map (fun ty => flat_map (fun op => map (fun w => (ty, op, w)) [1; 2; 3]) [1; 2; 3; 4]) [0; 1]) = true.
+Proof. split; vm_compute; reflexivity. Qed.
